@@ -3,7 +3,7 @@
 use flipdot_core::{Page, PageId};
 
 use crate::refs::{self, RefPage};
-use crate::util::{Ctx, J, Outcome, Report, Rng, catch, floor, mix, run_sharded, short_loc};
+use crate::util::{Ctx, J, Outcome, Report, Rng, catch, floor, fnv, mix, run_sharded, short_loc};
 
 const MON: &str = "page_pixel_model";
 
@@ -456,6 +456,76 @@ fn sequence_of_length(rng: &mut Rng, rep: &mut Report, n_ops: usize) {
     }
 }
 
+/// Pages of half a gigabyte — sizes at which the NUMBER OF DOTS (not either dimension, not the byte length) passes 2^32:
+/// 65 537 x 65 536, 65 536 x 65 537, (2^28 + 1) x 16, 2^16 x 2^16 and one just below. They are built over zeroed buffers
+/// (which the system hands out lazily, so only the pages touched cost anything); a handful of pixels — the corners, the
+/// first pixel past every 2^32-dot mark, random ones — are written, read back, checked against the byte and bit the
+/// layout prescribes, and cleared again; their neighbours stay dark.
+fn gigantic_pages(rng: &mut Rng, rep: &mut Report) {
+    for (w, h) in [(65_537u32, 65_536u32), (65_536, 65_537), ((1 << 28) + 1, 16), (65_536, 65_536), (65_535, 65_536), (8_388_609, 512)] {
+        let cb = (h as usize).div_ceil(8);
+        let data = 4 + (w as usize) * cb;
+        let len = data.div_ceil(16) * 16;
+        let sig = format!("gigantic|{}x{}", w, h);
+        rep.case(Some(fnv(sig.as_bytes())));
+        let mut probes: Vec<(u32, u32)> = vec![(0, 0), (w - 1, h - 1), (w - 1, 0), (0, h - 1), (w / 2, h / 2), (1, 0), (0, 1)];
+        // the first column whose dots lie past 2^32 (counting 8 * cb dots per column), and its neighbours
+        let per_col = (cb * 8) as u64;
+        let col = ((1u64 << 32) / per_col) as u32;
+        for c in [col.saturating_sub(1), col, col + 1] {
+            if c < w {
+                probes.extend([(c, 0), (c, h - 1), (c, h / 3)]);
+            }
+        }
+        for _ in 0..12 {
+            probes.push((rng.below(u64::from(w)) as u32, rng.below(u64::from(h)) as u32));
+        }
+        for owned in [true, false] {
+            let backing: Vec<u8> = if owned { vec![] } else { vec![0u8; len] };
+            let r = catch(std::panic::AssertUnwindSafe(|| -> Result<Vec<String>, String> {
+                let mut page = if owned { Page::from_bytes(w, h, vec![0u8; len]) } else { Page::from_bytes(w, h, &backing[..]) }.map_err(|e| e.to_string())?;
+                let mut bad = vec![];
+                for &(x, y) in &probes {
+                    if page.get_pixel(x, y) {
+                        bad.push(format!("pixel ({},{}) of a blank page reads lit", x, y));
+                    }
+                    page.set_pixel(x, y, true);
+                    let idx = 4 + (x as usize) * cb + (y / 8) as usize;
+                    if !page.get_pixel(x, y) {
+                        bad.push(format!("pixel ({},{}) reads dark right after it was lit", x, y));
+                    }
+                    if page.as_bytes().get(idx).copied() != Some(1u8 << (y % 8)) {
+                        bad.push(format!("lighting ({},{}) made byte {} = {:?}, the layout says {:#04x}", x, y, idx, page.as_bytes().get(idx), 1u8 << (y % 8)));
+                    }
+                    // the neighbours in the column, the row and the dot number stay dark
+                    for (nx, ny) in [(x.wrapping_sub(1), y), (x + 1, y), (x, y.wrapping_sub(1)), (x, y + 1)] {
+                        if nx < w && ny < h && page.get_pixel(nx, ny) {
+                            bad.push(format!("lighting ({},{}) lit ({},{}) as well", x, y, nx, ny));
+                        }
+                    }
+                    page.set_pixel(x, y, false);
+                    if page.get_pixel(x, y) || page.as_bytes().get(idx).copied() != Some(0) {
+                        bad.push(format!("pixel ({},{}) still lit after it was cleared", x, y));
+                    }
+                }
+                Ok(bad)
+            }));
+            match r {
+                Ok(Ok(bad)) => {
+                    if bad.is_empty() {
+                        rep.count("gigantic_pages_probed");
+                    }
+                    for b in bad.into_iter().take(3) {
+                        rep.violation(MON, "pixel_wrong_on_a_gigantic_page", &sig, format!("{}x{} page ({} bytes, {}): {}", w, h, len, if owned { "owned" } else { "borrowed" }, b), J::obj(vec![("workload", J::s("gigantic pages")), ("width", J::Int(i128::from(w))), ("height", J::Int(i128::from(h))), ("observed", J::s(b.clone()))]));
+                    }
+                }
+                Ok(Err(e)) => rep.violation(MON, "gigantic_page_refused", &sig, format!("from_bytes({}x{}, {} bytes — the padded length) refused: {}", w, h, len, e), J::obj(vec![("workload", J::s("gigantic pages")), ("width", J::Int(i128::from(w))), ("height", J::Int(i128::from(h)))])),
+                Err(p) => rep.violation(MON, "panic", &sig, format!("{}x{} page ({} bytes, {}): panic {} at {}", w, h, len, if owned { "owned" } else { "borrowed" }, p.msg, short_loc(&p.loc)), J::obj(vec![("workload", J::s("gigantic pages")), ("width", J::Int(i128::from(w))), ("height", J::Int(i128::from(h)))])),
+            }
+        }
+    }
+}
+
 pub fn run(ctx: &Ctx) -> Outcome {
     let (bw, bh) = if ctx.quick() { (14u32, 25u32) } else { (20, 33) };
     let n_seq = ctx.size(200_000, 2_000_000);
@@ -501,11 +571,13 @@ pub fn run(ctx: &Ctx) -> Outcome {
         // the same calls from a thread-local destructor while a thread exits (see exitprobe.rs)
         let mut at_exit = Report::new();
         crate::exitprobe::check("page", MON, &mut at_exit);
+        gigantic_pages(&mut ctx.rng("gigantic", 0), &mut at_exit);
         crate::exitprobe::check_migration("page", MON, &mut at_exit);
         report.merge(at_exit);
     }
     let floors = vec![
         floor("every page asked for could be built (otherwise the bounds rules were not observed on those sizes)", report.get("pages_that_could_not_be_built") == 0, report.get("pages_that_could_not_be_built")),
+        floor("pages whose dot count passes 2^32 (65537x65536, 65536x65537, (2^28+1)x16, ...), owned and borrowed, probed at the corners, past the 2^32-dot mark and at random", report.get("gigantic_pages_probed") == 12, report.get("gigantic_pages_probed")),
         floor("every size of the box explored", report.get("box_sizes_done") == box_n as u64, report.get("box_sizes_done")),
         floor("tall and wide pages explored pixel by pixel", report.get("tall_and_wide_sizes_done") == n_tall as u64, report.get("tall_and_wide_sizes_done")),
         floor("all 11 real sizes explored", report.get("real_sizes_done") == 11, report.get("real_sizes_done")),
